@@ -680,6 +680,8 @@ class Interp:
         if isinstance(obj, (ListV, TupleV, SymStr, Const, ValueV, Sym)):
             if isinstance(obj, ValueV) and attr in obj.extra:
                 return obj.extra[attr]
+            if ('method:' + attr) in self.prims:
+                return BoundV(obj, attr)
             return BoundV(obj, attr) if attr in _METHODS else Sym('%s.%s' % (_prov(obj), attr))
         if isinstance(obj, FuncV):
             return SymStr('%s.%s' % (obj.fn.name if obj.fn else 'lambda', attr), nonempty=True)
@@ -1022,6 +1024,11 @@ class Interp:
 
     # ---------------------------------------------------------------- methods
     def call_method(self, obj, name, args, kwargs, node):
+        hook = self.prims.get('method:' + name)
+        if hook is not None:
+            r = hook(self, obj, args, kwargs, node)
+            if r is not NotImplemented:
+                return r
         if isinstance(obj, ListV):
             if name == 'append':
                 obj.items.append(args[0])
